@@ -22,7 +22,7 @@ use rustc_middle::mir::{
     self, AggregateKind, BasicBlockData, Body, CastKind, Operand, Place, ProjectionElem, Rvalue,
     StatementKind, TerminatorKind,
 };
-use rustc_middle::ty::{self, GenericArgKind, GenericArgsRef, Ty, TyCtxt, TypingEnv};
+use rustc_middle::ty::{self, GenericArgKind, GenericArgsRef, Ty, TyCtxt, TypeVisitableExt, TypingEnv};
 use rustc_span::Span;
 use std::collections::HashMap;
 use std::fmt::Write as _;
@@ -218,6 +218,16 @@ impl<'tcx> Cx<'tcx> {
     fn ty(&mut self, t: Ty<'tcx>) -> usize {
         if let Some(&i) = self.type_ix.get(&t) {
             return i;
+        }
+        // evaluate constants inside closed types (e.g. `[T; RP_PARAMETER_L]`)
+        if !t.has_non_region_param() && !t.has_escaping_bound_vars() && !matches!(t.kind(), ty::FnDef(..) | ty::Closure(..)) {
+            if let Ok(n) = self.tcx.try_normalize_erasing_regions(TypingEnv::fully_monomorphized(), rustc_middle::ty::Unnormalized::new_wip(t)) {
+                if n != t {
+                    let i = self.ty(n);
+                    self.type_ix.insert(t, i);
+                    return i;
+                }
+            }
         }
         let i = self.types.len();
         self.types.push(J::Null);
